@@ -99,26 +99,39 @@ def orUnmatched (p : Bytes) : Bytes := if p = [] then sUnmatched else p
 def sunsetBody (ver : Bytes) : Nat :=
   ("API ".toList ++ ver ++ " was removed. Please upgrade to a supported version.".toList).length
 
+/-- the router-level operations on the response, in source order (what `Tie/C08.model_exits_are_skeleton_exits`
+    compares with the regenerated skeleton) -/
+inductive ROp
+  | lifecycle          -- r.versionEngine.SetLifecycleHeaders(w, version, pattern)
+  | next               -- c.Next(): the handler chain
+  | noRoute            -- handler(c): the NoRoute handler
+  | notFound           -- c.NotFound()
+  | methodNotAllowed   -- c.MethodNotAllowed(allowed)
+  | writeHeader        -- w.WriteHeader(http.StatusGone)
+  | writeBody          -- w.Write(…)
+  deriving DecidableEq, Repr
+
 /-- result of the dispatch: handler events, the label handed to the guarded end callback (`none`: the path
-    returns without reaching an end callback), status and size of the response -/
+    returns without reaching an end callback), status and size of the response, router-level operations -/
 structure Disp where
   hs : List MEv
   label : Option Bytes
   status : Nat
   size : Nat
+  ops : List ROp
   deriving DecidableEq, Repr
 
-/-- a matched route runs its chain; the end callback gets `label` -/
-def matched (rt : Route) (cpat ver label : Bytes) (p : Prog) : Disp :=
-  ⟨chainLog rt cpat ver p, some label, p.resp.1, p.resp.2.1⟩
+/-- a matched route runs its chain; the end callback gets `label`; versioned routes set lifecycle headers first -/
+def matched (rt : Route) (cpat ver label : Bytes) (p : Prog) (pre : List ROp := []) : Disp :=
+  ⟨chainLog rt cpat ver p, some label, p.resp.1, p.resp.2.1, pre ++ [.next]⟩
 
 /-- handleNotFound: 405 when another method has the path, else the NoRoute handler, else the default 404 -/
 def notFound (f : Facts) (p : Prog) (label : Option Bytes) : Disp :=
-  if f.allowed then ⟨[], label, 405, "Method Not Allowed\n".length⟩
+  if f.allowed then ⟨[], label, 405, "Method Not Allowed\n".length, [.methodNotAllowed]⟩
   else if f.noRoute then
     -- the NoRoute handler is a probe handler: it logs and runs the program's final-handler part
-    ⟨[MEv.handler noRouteHid sNotFound (if f.versionEngine then f.detected else [])], label, p.resp.1, p.resp.2.1⟩
-  else ⟨[], label, 404, "Not Found\n".length⟩
+    ⟨[MEv.handler noRouteHid sNotFound (if f.versionEngine then f.detected else [])], label, p.resp.1, p.resp.2.1, [.noRoute]⟩
+  else ⟨[], label, 404, "Not Found\n".length, [.notFound]⟩
 
 /-- `if r.useCompiledRoutes && r.routeCompiler != nil { if r.routeCompiler.HasStatic() { LookupStatic … } }` -/
 def Facts.q1 (f : Facts) : Option Route := if f.useCompiled then (if f.hasStatic then f.lookupStatic else none) else none
@@ -131,7 +144,7 @@ def Facts.q4 (f : Facts) : Option Route := if f.tree then f.treeRoute else none
 
 /-- the 410 branch of serveVersionedHandlers / serveVersionedRequest -/
 def gone (asIs : Bool) (f : Facts) (rt : Route) : Disp :=
-  ⟨[], if asIs then none else some rt.pattern, 410, sunsetBody f.version⟩
+  ⟨[], if asIs then none else some rt.pattern, 410, sunsetBody f.version, [.lifecycle, .writeHeader, .writeBody]⟩
 
 /-- serveVersionedRequest (with serveVersionedHandlers) -/
 def versioned (asIs : Bool) (f : Facts) (p : Prog) : Disp :=
@@ -139,13 +152,13 @@ def versioned (asIs : Bool) (f : Facts) (p : Prog) : Disp :=
   | some rt =>
     -- serveVersionedHandlers
     if f.versionEngine && f.sunset then gone asIs f rt
-    else matched rt rt.pattern f.version rt.pattern p
+    else matched rt rt.pattern f.version rt.pattern p (if f.versionEngine then [.lifecycle] else [])
   | none =>
   match f.vRoute with
   | none => notFound f p (if asIs then none else some sNotFound)
   | some rt =>
     if f.versionEngine && f.sunset then gone asIs f rt
-    else matched rt (orUnmatched rt.pattern) f.version rt.pattern p
+    else matched rt (orUnmatched rt.pattern) f.version rt.pattern p (if f.versionEngine then [.lifecycle] else [])
 
 /-- ServeHTTP after start/wrap. `asIs = true` reproduces the code before commit 91ac4e5 (K08). -/
 def dispatch (asIs : Bool) (f : Facts) (p : Prog) : Disp :=
